@@ -60,6 +60,9 @@ def run_case(cs, ctx):
     if cs % 20 == 7:
         spec = sp.make_big_spec(rng)
         ctx.cov('big_two_digit_ids_both_sides')
+    elif cs % 100 == 13:
+        spec = sp.make_huge_id_spec(rng)
+        ctx.cov('three_digit_ids')
     else:
         spec = sp.make_spec(rng, max_s=rng.choice([1, 2, 4, 4, 6]), max_p=rng.choice([1, 3, 4, 6]), max_l=4)
     twopl = rng.random() < 0.6
